@@ -26,7 +26,10 @@ RULE = ('cases = every prefix and single-byte corruptions (three replacement val
 def cli(path, opt):
     cmd = [common.PY] + (['-O'] if opt else []) + ['-W', 'ignore', os.path.join(common.MODULES, 'pel', 'peltool', 'peltool.py'), '-f', path, '-E']
     t0 = time.time()
-    p = subprocess.run(cmd, stdout=subprocess.PIPE, stderr=subprocess.PIPE, env=common.child_env(), timeout=60)
+    try:
+        p = subprocess.run(cmd, stdout=subprocess.PIPE, stderr=subprocess.PIPE, env=common.child_env(), timeout=60)
+    except subprocess.TimeoutExpired as e:
+        return -999, (e.stdout or b'').decode(errors='replace'), (e.stderr or b'').decode(errors='replace'), time.time() - t0
     return p.returncode, p.stdout.decode(errors='replace'), p.stderr.decode(errors='replace'), time.time() - t0
 
 
@@ -78,7 +81,9 @@ def run(tier, seed):
             ck.case(key=b if b[:2] == b'PH' else None, sample={'kind': kind, 'len': len(b)} if len(ck.samples) < 3 or kind == 'corrupt' else None)
             ck.count('%s -> %s' % (kind, real[0]))
             rp = {'op': 'parsePEL', 'kind': kind, 'data_hex': b.hex()}
-            if dt > 2.0:
+            if real[:2] == ('error', 'Hang'):
+                ck.fail('decoding hangs: no result within the %.0f s watchdog limit' % common.REAL_CALL_LIMIT, rp, 'hang')
+            elif dt > 2.0:
                 ck.fail('decoding did not terminate promptly (%.1fs)' % dt, rp, 'slow')
             if kind == 'prefix' and real[0] == 'doc':
                 ck.fail('a proper prefix of a well-formed PEL was decoded instead of rejected', rp | {'actual': str(real[2])[:300]}, 'prefix_decoded')
@@ -111,7 +116,9 @@ def run(tier, seed):
                 ck.case(key=('cli', opt, b), sample={'cli': 'python %s peltool.py -f <%s, %d bytes> -E' % ('-O' if opt else '', kind, len(b))} if opt and len(ck.samples) < 6 else None)
                 ck.count('cli%s %s rc=%d' % (' -O' if opt else '', kind, rc))
                 rp = {'op': 'cli', 'optimise': opt, 'kind': kind, 'data_hex': b.hex(), 'rc': rc, 'stderr': err[-300:], 'stdout': out[:200]}
-                if rc not in (0, 1):
+                if rc == -999:
+                    ck.fail('the command line did not terminate within 60 s', rp, 'cli_hang')
+                elif rc not in (0, 1):
                     ck.fail('exit status other than 0/1', rp, 'cli_exit')
                 if 'Traceback' in err:
                     ck.fail('traceback on stderr', rp, 'cli_traceback')
